@@ -45,9 +45,10 @@ type Session struct {
 	Backend  string
 	H        *run.Handle
 	M        *model.DB
-	Prev     *model.DB // model state before the current step (for hooks)
-	Resynced bool      // the current step's effect was read back from the database
-	Ops      []cs.Op // as drawn (symbolic ids)
+	Prev     *model.DB   // model state before the current step (for hooks)
+	Resynced bool        // the current step's effect was read back from the database
+	Last     *cs.Outcome // outcome of the last operation
+	Ops      []cs.Op     // as drawn (symbolic ids)
 	Hooks    []Hook
 	// id bookkeeping for clover-generated ids
 	assigned map[[2]int]string
@@ -142,6 +143,7 @@ func (s *Session) Do(op cs.Op) *Fail {
 	} else {
 		out = run.Exec(s.H.DB, r)
 	}
+	s.Last = out
 	if strings.HasPrefix(out.Err, "panic") || out.Err == "hang" {
 		return &Fail{Property: "C20", Clause: "no-panic-no-hang", Detail: fmt.Sprintf("%s: %s", r.Kind, out.Err), Step: stepNo}
 	}
@@ -157,6 +159,13 @@ func (s *Session) Do(op cs.Op) *Fail {
 		}
 	}
 	s.noteFacts(r, out)
+	if r.Kind == "reopen" && out.Err == "" && !run.OnDisk(s.Backend) {
+		// an in-memory database starts empty again
+		fresh := model.New()
+		fresh.AllowIdRewrite = s.M.AllowIdRewrite
+		fresh.Closed = s.M.Closed
+		s.M = fresh
+	}
 	s.Prev = s.M.Clone()
 	s.Resynced = false
 	if msg := s.M.Step(r, out); msg != "" {
